@@ -315,6 +315,8 @@ pub fn run_part(component: &str, ops: &[Op]) -> Vec<String> {
     let p: Vec<&str> = component.split(':').collect();
     let bad = || vec![format!("(unknown component {})", component)];
     match p[0] {
+        // hook neutrality: re-run both builds of the probe on one group and report the first differing item
+        "neutral" => vec![crate::props::neutral::first_difference(p.get(1).copied().unwrap_or(""), &p[2.min(p.len())..].join(":"))],
         "set1" => run_scancode(ScancodeSet1::new(), ops),
         "set2" => run_scancode(ScancodeSet2::new(), ops),
         "set1-default" => run_scancode(ScancodeSet1::default(), ops),
